@@ -83,7 +83,7 @@ Proof.
   destruct r; destruct k; try destruct Hk; cbn; auto; repeat split; auto; discriminate.
 Qed.
 
-Definition step_linkS S := step_link (QmS S) (QkS S) (QS_stamp S) (QS_cb S) (QS_requeue S) (QS_sys S) (QS_nu S) (QkS_nu S).
+Definition step_linkS S := step_link (QmS S) (QkS S) (QS_stamp S) (QS_cb S) (QS_requeue S) (QS_nu S) (QkS_nu S) (QS_sys S).
 
 (* ---------- the sender's invariant over the joint ghost ---------- *)
 (* for every datagram on the wire whose index is recent, the callbacks registered for its sequence
